@@ -39,7 +39,8 @@ REQUIRED_MONITORS = ['boundary:PLSSDesc', 'boundary:find_twprge',
                      'contract:unpack_twprge', 'default-filled',
                      'hostile-neighbour', 'ocr', 'pair',
                      'channel:config-object-vs-later-master', 'segment-mode',
-                     'channel:master-after-creation']
+                     'channel:master-after-creation',
+                     'ocr-on-in-default-channels', 'boundary:preprocess']
 EXHAUSTIVE_SUBSPACES = {
     'thorough': ["compact spelling, t 1..199 x r 1..130, directions rotating"],
 }
@@ -110,8 +111,13 @@ def check(case, ctx, rep, pytrs):
     if seg:
         ctx.hit('segment-mode')
 
+    ocr = bool(case.get('ocr_on'))
+    if ocr:
+        ctx.hit('ocr-on-in-default-channels')
+
     def cfg(x):
-        return ','.join(filter(None, [x, 'segment' if seg else '']))
+        return ','.join(filter(None, [x, 'segment' if seg else '',
+                                      'ocr_scrub' if ocr else '']))
     with ctx.guard(case):
         try:
             if channel == 'config':
@@ -160,6 +166,24 @@ def check(case, ctx, rep, pytrs):
                                    wait_to_parse=True)
                 d.parse(default_ns=dns, default_ew=dew)
             ctx.hit('boundary:PLSSDesc')
+            if channel in ('config', 'master') and not case.get('hostile'):
+                # the no-parse paths: a description told to wait, and the
+                # value preprocess() returns
+                w = pytrs.PLSSDesc(
+                    txt, wait_to_parse=True,
+                    config=(cfg(f"{dns},{dew}") if channel == 'config'
+                            else cfg('') or None))
+                ctx.hit('boundary:preprocess')
+                for label, text_ in (('pp_desc of a waiting description',
+                                      w.pp_desc),
+                                     ('preprocess()', w.preprocess())):
+                    if want + ' ' not in text_ + ' ':
+                        ctx.violation(
+                            'pp_desc', case,
+                            f"{label}: {short(text_, 90)!r} does not show "
+                            f"{want!r} (defaults {dns}{dew} via {channel})",
+                            dedup=f"preprocess|{label[:3]}")
+                        return
             got = [x.trs for x in d.tracts]
             if dn or de:
                 ctx.hit('default-filled')
@@ -387,7 +411,8 @@ def gen_case(rng):
                                                  'master-after-creation',
                                                  'config-object-vs-later-master']),
             'text': txt, 'hostile': hostile,
-            'segment': rng.random() < 0.25 and not hostile}
+            'segment': rng.random() < 0.25 and not hostile,
+            'ocr_on': rng.random() < 0.2}
 
 
 def run_shard(shard, ctx):
